@@ -203,6 +203,23 @@ def fault_manifests(quick):
     return out
 
 
+def start_fault_manifests(quick):
+    """Manifests whose start is re-run with every single external step
+    failing once: the fault menu in the quick tier; in the thorough tier all
+    endpoint lists of size <= 2 with the two extreme ephemeral / passthrough
+    choices (a start has ~2.3 times as many steps as a finish)."""
+    if quick:
+        return fault_manifests(True)
+    out = []
+    for ep in endpoint_lists(2):
+        for eph in [(0, 0), (2, 1)]:
+            for pt in [[], ['h1', 'h3']]:
+                for vr in (False, True):
+                    out.append(W.manifest(endpoints_=ep, eph=eph,
+                                          passthrough=pt, vring=vr))
+    return out
+
+
 def _finish_until_done(host, manifest):
     """Repeat finish until an attempt ends without an exception.
     Returns (completed?, [exceptions of the aborted attempts])."""
@@ -331,8 +348,22 @@ def run_start_fault(manifest, order, k):
     return viol, facts
 
 
+def _hash_sensitive(manifest):
+    """The only hash-order dependence of the code under test: the *set* of
+    resolved passthrough addresses, when it has more than one member."""
+    return len({W.HOSTS.get(h, h) for h in manifest['passthrough']}) >= 2
+
+
+def _menu(kind, quick, hash_only):
+    menu = fault_manifests(quick) if kind == 'fault' else \
+        start_fault_manifests(quick)
+    if hash_only:
+        menu = [m for m in menu if _hash_sensitive(m)]
+    return menu
+
+
 def fault_worker(chunk):
-    _k, quick, lo, hi = chunk
+    _k, quick, lo, hi, hash_only = chunk
     out = {'cases': 0, 'nontrivial': 0, 'states': 0, 'violations': [],
            'samples': [], 'counters': {}}
     cnt = out['counters']
@@ -352,7 +383,9 @@ def fault_worker(chunk):
     def bump(key, n=1):
         cnt[key] = cnt.get(key, 0) + n
 
-    for manifest in fault_manifests(quick)[lo:hi]:
+    kind = chunk[0]
+    for manifest in (_menu(kind, quick, hash_only)[lo:hi]
+                     if kind == 'fault' else ()):
         # (c) the finish with one failed step
         viol, facts = run_fault(manifest, 'identity', None)
         n = facts['points']
@@ -367,9 +400,12 @@ def fault_worker(chunk):
             if f['aborted'] == 0:
                 bump('fault_swallowed_by_the_code')
             bump('fault in %s' % (f['fired'][0],))
+    for manifest in (_menu(kind, quick, hash_only)[lo:hi]
+                     if kind == 'sfault' else ()):
         # (d) the start with one failed step
         viol, facts = run_start_fault(manifest, 'identity', None)
         n = facts['points']
+        bump('sfault_manifests')
         bump('sfault_points', n)
         note('start-fault', manifest, None, viol)
         for k in range(n):
@@ -495,6 +531,7 @@ class PairWorld:
         }
         self.status = {'A': 'new', 'B': 'new'}
         self.aborted = set()
+        self.start_exc = {}
         self.app = {}
         self.reg = {'A': frozenset(), 'B': frozenset()}
 
@@ -520,7 +557,7 @@ class PairWorld:
                 # earlier finish left behind, which was reported there)
                 app = None
                 self.stats['start_raised'] += 1
-                self.last_start_exc = _exc(exc)
+                self.start_exc[x] = _exc(exc)
             finally:
                 fired = W.FAULT.fired
                 W.FAULT.arm(None)
@@ -529,8 +566,10 @@ class PairWorld:
             self.reg[x] = after - before
             self.status[x] = 'run'
             self.stats['starts'] += 1
-            if kind == 'abort' and app is None:
+            if x in self.start_exc:
+                # whatever made the start raise, it is an aborted start
                 self.aborted.add(x)
+            if kind == 'abort':
                 if fired is not None:
                     self.stats['starts_aborted_at_veth_creation'] += 1
                     if self.reg[x]:
@@ -591,7 +630,7 @@ class PairWorld:
                         'finish-left-registration-behind-after-aborted-start',
                         '_run.run / _finish.finish:' + W.kind_of(item),
                         ev, left=item, finish_raised=raised,
-                        failed='failed subproc newnet.create_newnet')
+                        start_raised=self.start_exc.get(x))
                     continue
                 self.report('finish-left-registration-behind',
                             '_finish._cleanup_network:' + W.kind_of(item),
@@ -704,7 +743,7 @@ def pair_worker(chunk):
 def worker(chunk):
     if chunk[0] == 'sweep':
         return sweep_worker(chunk)
-    if chunk[0] == 'fault':
+    if chunk[0] in ('fault', 'sfault'):
         return fault_worker(chunk)
     return pair_worker(chunk)
 
@@ -766,10 +805,15 @@ def run(ctx):
 def _run(ctx, t0):
     # the fault chunks are the heaviest: hand them out first
     chunks = []
-    nfault = len(fault_manifests(ctx.quick))
-    fstep = 4
-    for lo in range(0, nfault, fstep):
-        chunks.append(('fault', ctx.quick, lo, min(nfault, lo + fstep)))
+    # (under the 2nd, 3rd hash seed of a run only the hash-sensitive
+    # manifests of the two fault menus are repeated)
+    hash_only = getattr(ctx, 'hash_index', 0) > 0
+    fstep = 6
+    for kind in ('sfault', 'fault'):
+        nmenu = len(_menu(kind, ctx.quick, hash_only))
+        for lo in range(0, nmenu, fstep):
+            chunks.append((kind, ctx.quick, lo, min(nmenu, lo + fstep),
+                           hash_only))
     chunks.extend(sweep_chunks(ctx.quick))
     npairs = len(pair_configs(ctx.quick))
     step = 4
@@ -802,7 +846,7 @@ def _run(ctx, t0):
     doms = domains(ctx.quick)
     sweep_cases = sw.cases - npairs
     fault_runs = c.get('fault_runs', 0) + c.get('fault_manifests', 0)
-    sfault_runs = c.get('sfault_runs', 0) + c.get('fault_manifests', 0)
+    sfault_runs = c.get('sfault_runs', 0) + c.get('sfault_manifests', 0)
     cov = {
         'states': sweep_cases + c.get('pair_states', 0) +
         c.get('fault_points', 0) + c.get('sfault_points', 0),
@@ -883,6 +927,7 @@ def _run(ctx, t0):
             'by_kind': {k[9:]: v for k, v in sorted(c.items())
                         if k.startswith('fault in ')},
             'max_finish_attempts': MAX_FINISH_ATTEMPTS,
+            'only_hash_sensitive_manifests': hash_only,
         },
         'start_faults': {
             'what': 'for every manifest of the fault menu: one run counting '
@@ -890,7 +935,10 @@ def _run(ctx, t0):
                     'per step with exactly that step failing once; the '
                     'aborted container is flagged like sproc/run.py does, '
                     'then the real finish and finish again',
-            'manifests': c.get('fault_manifests', 0),
+            'menu': 'the fault menu' if ctx.quick else
+                    'endpoint lists of size <= 2 x ephemeral {(0,0),(2,1)} x '
+                    'passthrough {[], [h1,h3]} x vring',
+            'manifests': c.get('sfault_manifests', 0),
             'fault_points': c.get('sfault_points', 0),
             'runs_with_one_failed_step': c.get('sfault_runs', 0),
             'aborted_starts': c.get('sfault_aborted_starts', 0),
@@ -930,13 +978,35 @@ def replay(ctx, data):
 
 
 ASSUMPTIONS = [
-    'start = the network slice of _run.run (network_client put/wait, real '
-    'runtime.allocate_network_ports, real runtime.save_app, real '
-    '_run._unshare_network); finish = the network slice of _finish (real '
-    'runtime.load_app_safe from the saved state.json, real '
-    '_finish._cleanup_network incl. _cleanup_ephemeral_ports); the rest of '
-    'run/finish (cgroups, localdisk, image, presence, rrd, archive) is not '
-    'executed',
+    'start = the real _run.run from the resource requests to the exec of the '
+    'container supervisor (which returns here), finish = the real '
+    '_finish.finish (load_app_safe from the saved state.json, _cleanup, '
+    '_cleanup_network incl. _cleanup_ephemeral_ports, apphook.cleanup, finish '
+    'info); faked at module seams: resource service clients (in memory: '
+    'cgroup, localdisk, network, presence), cgroups.join, image.get_image / '
+    'unpack, fs.linux (blk_fs_test says "not formatted", blk_fs_create, '
+    'mount_filesystem, cleanup_mounts), unshare, newnet.create_newnet, '
+    'apphook, subproc.exec_pid1, rrdutils.flush_noexc, runtime.archive_logs, '
+    'trace.post; LinuxRuntime / sproc run / the supervisor around them are '
+    'not executed',
+    'a start that raises is an aborted start: the harness does what '
+    'sproc/run.py does (real appcfg.abort.flag_aborted in the data dir), the '
+    'process is gone (every socket it opened is closed) and the node runs '
+    'the real finish on the container directory later; nothing else touches '
+    'the container in between',
+    'start failures: every external step of _run.run (each put / wait of the '
+    'four resource clients, each cgroups.join, image lookup and unpack, each '
+    'socket bind, each symlink of a rule or endpoint-spec file, each ipset '
+    'invocation, newnet.create_newnet, block device test / format, unshare, '
+    'mount, cleanup_mounts, apphook.configure, exec_pid1) is a fault point; '
+    'exactly one fails once per run (ResourceServiceTimeoutError for wait, '
+    'CalledProcessError rc 2 for commands, EACCES for bind, OSError EIO '
+    'otherwise), then finish runs without failures; a failed write of '
+    'state.json / of the aborted flag and double failures are not injected; '
+    'in the pair BFS an aborted start fails at newnet.create_newnet (all '
+    'registrations made); next to an aborted container that was not finished '
+    'yet the one-DNAT-rule-per-host-port clause is not judged (its ports are '
+    'free, its rules still there: the statement is silent about that window)',
     'real RuleMgr / EndpointsMgr on run-private temp directories; real '
     'treadmill.iptables ip-set functions over a fake subproc that interprets '
     'the ipset command line on Python sets (-exist makes add/del idempotent); '
@@ -950,15 +1020,17 @@ ASSUMPTIONS = [
     '(identity, reversed, rotated), the same for every container of a host, '
     'so two containers always draw the same ports first',
     'fake network service client: lowest free vip, get() after delete() or '
-    'without put() returns None; newnet.create_newnet is a recorder; no '
-    'firewall plugin is installed (plugin_manager.load fails and is caught, as '
-    'in this environment)',
+    'without put() returns None, wait() without put() (what _run.run does '
+    'for a shared-network container) returns the host network; '
+    'newnet.create_newnet is a recorder; no firewall plugin is installed '
+    '(plugin_manager.load fails and is caught, as in this environment)',
     'host names resolve identically at start and at finish (the FIXME in '
     '_cleanup_network is an environment assumption, not explored)',
-    'command failures: every ipset / conntrack invocation reaching the fake '
-    'subproc, every unlink of a rule or endpoint-spec file and the network '
-    'service delete issued by _cleanup_network is a fault point; exactly one '
-    'of them fails once per run (CalledProcessError rc 2 resp. OSError EIO), '
+    'finish failures: every ipset / conntrack invocation reaching the fake '
+    'subproc, every unlink of a rule or endpoint-spec file, the delete of '
+    'each of the four resource clients and apphook.cleanup is a fault point; '
+    'exactly one of them fails once per run (CalledProcessError rc 2 resp. '
+    'OSError EIO), '
     'the attempt ends the way the real code ends it and finish is repeated '
     'until an attempt completes; failures of network_client.get, of reading '
     'state.json and double failures are not injected',
